@@ -51,7 +51,7 @@ LEAVES = [
     ('add', 'Polynomial', 'f64', 'Polynomial', 'up'), ('add', 'Polynomial', 'Linear', 'Polynomial', 'up'), ('add', 'Polynomial', 'Quadratic', 'Polynomial', 'up'),
     ('add', 'Polynomial', 'Polynomial', 'Polynomial', 'pmerge'),
     ('mul', 'Linear', 'f64', 'Linear', 'free'), ('mul', 'Linear', 'Linear', 'Quadratic', 'mulll'),
-    ('mul', 'Quadratic', 'f64', 'Quadratic', 'free'), ('mul', 'Quadratic', 'Linear', 'Polynomial', 'map'), ('mul', 'Quadratic', 'Quadratic', 'Polynomial', 'map'),
+    ('mul', 'Quadratic', 'f64', 'Quadratic', 'free'), ('mul', 'Quadratic', 'Linear', 'Polynomial', 'gmull'), ('mul', 'Quadratic', 'Quadratic', 'Polynomial', 'gmul'),
     ('mul', 'Polynomial', 'f64', 'Polynomial', 'free'), ('mul', 'Polynomial', 'Linear', 'Polynomial', 'map'), ('mul', 'Polynomial', 'Quadratic', 'Polynomial', 'map'),
     ('mul', 'Polynomial', 'Polynomial', 'Polynomial', 'pmul'),
 ]
@@ -87,7 +87,7 @@ def spec_impl(op, a, b, c, req='true'):
 def leaf_spec_text():
     out = ['// ---- leaf remainders: 0 for map-free code, uninterpreted for the assumed BTreeMap-merge leaves ----\n']
     for op, a, b, c, kind in LEAVES:
-        sig = 'pub %s spec fn %s(x: v1::%s, y: %s, m: Map<u64, F64>) -> real' % ('open' if kind in ('free', 'merge', 'deleg', 'merge2', 'mulll', 'pmerge', 'pmul', 'up') else 'uninterp', rem_name(op, a, b), a, 'F64' if b == 'f64' else 'v1::' + b)
+        sig = 'pub %s spec fn %s(x: v1::%s, y: %s, m: Map<u64, F64>) -> real' % ('open' if kind in ('free', 'merge', 'deleg', 'merge2', 'mulll', 'pmerge', 'pmul', 'up', 'gmul', 'gmull') else 'uninterp', rem_name(op, a, b), a, 'F64' if b == 'f64' else 'v1::' + b)
         if kind == 'merge2':
             assert (op, a, b) == ('add', 'Quadratic', 'Quadratic')
             out.append('pub open spec fn rem_add_quadratic_quadratic(x: v1::Quadratic, y: v1::Quadratic, m: Map<u64, F64>) -> real {\n'
@@ -107,6 +107,17 @@ def leaf_spec_text():
             assert op == 'add' and a == 'Polynomial'
             g = {'f64': 'cmap(y)', 'Linear': 'lmap(y)', 'Quadratic': 'qmap(y)'}[b]
             out.append(sig + ' { rem_add_up(x, %s, %s, m) }\n' % (g, v(b, 'y')))
+            continue
+        if kind == 'gmul':
+            # verified leaf: the loops of Quadratic * Quadratic build the EXACT product of the two term lists (spec/iter_spec.rs) under canonical keys; the final collect drops the entries with |v| <= EPSILON
+            assert (op, a, b) == ('mul', 'Quadratic', 'Quadratic')
+            out.append(sig + ' { rem_gmul(quad_titems(x), quad_titems(y), m) }\n')
+            continue
+        if kind == 'gmull':
+            # verified macro instance impl_mul_from!(Quadratic, Linear, Polynomial) = self * Quadratic::from(rhs): the upcast is exact (the linear part is rhs, no COO entries), so the term list of the
+            # second operand is the keyed term list of rhs
+            assert (op, a, b) == ('mul', 'Quadratic', 'Linear')
+            out.append(sig + ' { rem_gmul(quad_titems(x), lkeyed(y), m) }\n')
             continue
         if kind == 'pmul':
             # verified leaf: the loops of Polynomial * Polynomial build the EXACT product under canonical (sorted) keys; the final collect drops the entries with |v| <= EPSILON
@@ -213,6 +224,8 @@ def from_units():
                     wrap=('impl From<%s> for %s {' % (src, dst), '}'), header='fn from(%s) -> (r: Self)\n        ensures %s' % (sig, ens))
     U.append(FROM('From<f64> for Linear', 'linear.rs', r'impl From<f64> for Linear \{', 'F64', 'Linear', 'constant: F64', 'r.terms.len() == 0, r.constant == constant,'))
     U[-1].sig = 'fn from(constant: f64) -> Self'
+    U.append(FROM('From<Linear> for Quadratic', 'quadratic.rs', r'impl From<Linear> for Quadratic \{', 'Linear', 'Quadratic', 'l: Linear', 'r.columns.len() == 0, r.rows.len() == 0, r.values.len() == 0, r.linear == Some(l),'))
+    U[-1].sig = 'fn from(l: Linear) -> Self'
     for src, var, arm in (('function::Function', 'f', None), ('Linear', 'linear', 'Linear'), ('Quadratic', 'q', 'Quadratic'), ('Polynomial', 'poly', 'Polynomial'), ('f64', 'f', 'Constant')):
         rs = 'F64' if src == 'f64' else ('FunctionEnum' if src == 'function::Function' else src)
         ens = 'r.function == Some(%s),' % (var if arm is None else 'FunctionEnum::%s(%s)' % (arm, var))
@@ -636,6 +649,20 @@ def typed_macro_units():
         }
         ''' % (f(a, 'self'), f(b, 'rhs'), g, v(b, 'rhs'), rem_name('add', a, b), g))])
         u.rsubs += [(r'self \+ Polynomial::from\(rhs\)', 'let __p = Polynomial::from%s(rhs); let __r = self + __p; __r' % ('_quadratic' if b == 'Quadratic' else ''), 1)]
+        U.append(u)
+    # Quadratic * Linear = self * Quadratic::from(rhs) (impl_mul_from!): the upcast is exact
+    for args, ln in core.macro_invocations('quadratic.rs', 'impl_mul_from'):
+        if tuple(args) != ('Quadratic', 'Linear', 'Polynomial'):
+            continue
+        u = unit('quadratic.rs', 'impl_mul_from', args, ln, 'mul', 'impl core::ops::Mul<Linear> for Quadratic { type Output = Polynomial;', si_req('Mul', 'mul', 'Quadratic', 'Linear', 'Polynomial', 'qcoo(self)'),
+                 'fn mul(self, rhs: Linear) -> (r: Polynomial)\n        ensures %s' % contract('mul', 'Quadratic', 'Linear', 'Polynomial'),
+                 proofs=[(('before', r'__r\s*\}\s*$'), '''proof {
+            assert(quad_titems(__q) =~= lkeyed(rhs));
+            assert(quadratic_ids(__q) =~= linear_ids(rhs));
+            assert forall|m: Map<u64, F64>| #![trigger quadratic_val(__q, m)] quadratic_val(__q, m) == linear_val(rhs, m) by { }
+        }
+        ''')])
+        u.rsubs += [(r'self \* Quadratic::from\(rhs\)', 'let __q = Quadratic::from(rhs); let __r = self * __q; __r', 1)]
         U.append(u)
     # a - b is computed as a + (-b) with an exact negation: the contract of a + n for the (existentially named) negation n of b
     for file in ('linear.rs', 'quadratic.rs', 'polynomial.rs'):
